@@ -4,7 +4,7 @@
    (correspondence on the real TimerQueue, ASan; the forced add-vs-fire schedule on the real code)
    and the generated fact Gen_C07.TimerQueue_addTimer_reads_seq_after_handoff. *)
 From Coq Require Import List ZArith Lia Bool.
-From Muduo Require Import Gen_Consts Gen_C06 Gen_C07 C06_Model C06_Proofs C06_Hist C06_GenTie C07_Model C07_Proofs.
+From Muduo Require Import Gen_Consts Gen_C06 Gen_C07 C06_Model C06_Proofs C06_Hist C06_Order C06_GenTie C06_Marshal C07_Model C07_Proofs.
 Import ListNotations.
 Local Open Scope Z_scope.
 
@@ -58,6 +58,29 @@ Theorem C07_foreign_cancel_stops : forall c ops st evs a o st' ev, run (init c) 
 Proof. exact foreign_cancel_stops. Qed.
 Print Assumptions C07_foreign_cancel_stops.
 
+(* "cancel() and the add functions may be called from any thread": in the model a foreign add is the
+   micro-steps CFNew ; CFEnq and a foreign cancel is CFCancel; they interleave freely with everything.
+   (1) Queue discipline: every op other than doPendingFunctors only appends to the functor queue, and
+   doPendingFunctors (run_functors, oldest first) leaves exactly what was appended meanwhile. *)
+Theorem C07_queue_append_only :
+  (forall st c st' ev, cb_step st c = Ok (st', ev) -> exists l, pending st' = pending st ++ l) /\
+  (forall cs st st' ev, cb_run st cs = Ok (st', ev) -> exists l, pending st' = pending st ++ l) /\
+  (forall fs st st' ev, run_functors st fs = Ok (st', ev) -> exists l, pending st' = pending st ++ l).
+Proof. exact (conj cb_step_pending_app (conj cb_run_pending_app run_functors_pending_app)). Qed.
+Print Assumptions C07_queue_append_only.
+
+(* (2) FIFO makes add-then-cancel work from any thread: if the hand-off of the add is queued before the
+   cancel of its id (same foreign thread: the id is returned after the hand-off; any other thread that
+   learnt the id later), the doPendingFunctors that processes the add processes the cancel after it, the
+   cancel finds the timer, and the timer is dead without ever having run.  The refuted boundary is
+   C07_cancel_before_queued_add_refuted (C07-b): a loop-thread cancel by-passes the queue. *)
+Theorem C07_foreign_add_then_cancel : forall c ops st evs l1 l2 a o st' ev, run (init c) ops = Ok (st, evs) ->
+  pending st = l1 ++ PAdd a :: l2 -> In (PCancel a (o_seq o)) l2 -> hget a (heap st) = Some o ->
+  step st RunPending = Ok (st', ev) ->
+  gone st' (o_seq o) /\ (forall dl now t, ~ In (ERun (o_seq o) dl now t) ev).
+Proof. exact foreign_add_then_cancel. Qed.
+Print Assumptions C07_foreign_add_then_cancel.
+
 (* In one expiry no sequence number runs twice. *)
 Theorem C07_once_per_expiry : forall c ops st evs script st' ev s, run (init c) ops = Ok (st, evs) ->
   fire st script = Ok (st', ev) -> (length (runs_of s ev) <= 1)%nat.
@@ -82,7 +105,7 @@ Print Assumptions C07_generated_guards.
    timer is registered afterwards and runs (finding C07-b, corpus/C07/cancel_queued_add.case); C07_cancel_stops therefore carries the
    hypothesis "the id is in activeTimers_" (the add has been processed). *)
 Definition lost_cancel_ops : list op :=
-  [Cb (CFAdd 2000 0 10); Cb (CCancel 10 1); RunPending; Cb (CTick 1500); Fire []].
+  [Cb (CFNew 2000 0 10); Cb (CFEnq 10); Cb (CCancel 10 1); RunPending; Cb (CTick 1500); Fire []].
 Theorem C07_cancel_before_queued_add_refuted :
   exists ops st evs t, run (init 1000) ops = Ok (st, evs) /\
     In (Cb (CCancel 10 1)) ops /\ In (EAdd 1 10 2000 0) evs /\ In (ERun 1 2000 2500 t) evs.
@@ -181,5 +204,14 @@ Example C07_foreign_cancel_nonvacuous :
   match run (init 1000) [Cb (CAdd 2000 500 10); Cb (CFCancel 10 1)] with
   | Ok (st, _) => hget 10 (heap st) = Some (mkT 1 2000 500) /\ In (2000, 10) (timers st) /\ In (PCancel 10 1) (pending st) /\
       match run st [RunPending; Cb (CTick 5000); Fire []] with Ok (st2, ev2) => rlog ev2 = [] /\ heap st2 = [] | _ => False end
+  | _ => False end.
+Proof. vm_compute. auto 10. Qed.
+
+(* non-vacuity of C07_foreign_add_then_cancel: add and cancel of the same id queued by a foreign thread,
+   another thread's add in between; after doPendingFunctors the timer is gone and the other one runs *)
+Example C07_add_then_cancel_nonvacuous :
+  match run (init 1000) [Cb (CFNew 2000 500 10); Cb (CFEnq 10); Cb (CFAdd 2100 0 20); Cb (CFCancel 10 1)] with
+  | Ok (st, _) => pending st = [] ++ PAdd 10 :: [PAdd 20; PCancel 10 1] /\ hget 10 (heap st) = Some (mkT 1 2000 500) /\
+      match run st [RunPending; Cb (CTick 5000); Fire []] with Ok (st2, ev2) => rlog ev2 = [(2, 2100, 6000)] | _ => False end
   | _ => False end.
 Proof. vm_compute. auto 10. Qed.
